@@ -1,8 +1,13 @@
 ----------------------------- MODULE Trace_Marker -----------------------------
 (* marker {rule, inst, o, olc}: o / olc = [m, loc, hf, bf] observed with the header name in the rule's
    spelling / in lower case; oa / ob = the header sent twice, a value the pattern cannot accept after / before it.
+   oc = the same request on a twin router after Router::cache (capture expressions compiled in place);
+   oi = twin router with every ignore-case flag set and the marker names spelled in camel case (a, aB, aBc): judged when
+        no used marker is instantiated with a value containing an upper-case letter (for those values the flags change what
+        is accepted and what is captured: outside this twin's premise).
    classes (C10): marker_match_wrong, target_substitution, header_filter_substitution,
-                  body_filter_substitution, header_marker_name_case, header_marker_repeated                       *)
+                  body_filter_substitution, header_marker_name_case, header_marker_repeated,
+                  marker_cached, marker_ignore_case_config                                                       *)
 EXTENDS Marker, Json, IOUtils
 TraceLog == ndJsonDeserialize(IOEnv.TRACE)
 VARIABLES l
@@ -14,10 +19,14 @@ Obs(o, r, inst, cls) ==
   /\ Judge(o.m => o.loc = Substitute(r.target, r, inst, 1), IF cls = "" THEN "target_substitution" ELSE cls)
   /\ Judge(o.m => o.hf = Substitute(r.hfv, r, inst, 1), IF cls = "" THEN "header_filter_substitution" ELSE cls)
   /\ Judge(o.m => o.bf = "B" \o Substitute(r.bfv, r, inst, 1), IF cls = "" THEN "body_filter_substitution" ELSE cls)
+UpperVals == {"aB", "A", "fooBar", "~E~COLE"}
+LowerOnly(r, inst) == \A n \in Used(r) : inst[n] \notin UpperVals
 TraceMarker ==
   /\ IsEvent("marker")
   /\ LET e == TraceLog[l] IN /\ Obs(e.o, e.rule, e.inst, "") /\ Obs(e.olc, e.rule, e.inst, "header_marker_name_case")
                              /\ Obs(e.oa, e.rule, e.inst, "header_marker_repeated") /\ Obs(e.ob, e.rule, e.inst, "header_marker_repeated")
+                             /\ Obs(e.oc, e.rule, e.inst, "marker_cached")
+                             /\ (LowerOnly(e.rule, e.inst) => Obs(e.oi, e.rule, e.inst, "marker_ignore_case_config"))
 TracePanic == IsEvent("panic") /\ Report("VERDICT", "panic")
 TraceNext == TraceMarker \/ TracePanic
 TraceSpec == l = 1 /\ [][TraceNext]_l
